@@ -422,12 +422,22 @@ func (m *Model) drillDown() {
 			return
 		}
 		m.selectedRealm = items[m.cursor].Name
-		result := m.explorer.ListSwamps(&explorer.SwampFilter{
-			Sanctuary: m.selectedSanctuary,
-			Realm:     m.selectedRealm,
-			Limit:     10000,
-		})
-		m.swamps = result.Swamps
+		// ListSwamps clamps Limit to 1000: page through it, otherwise a realm with more
+		// swamps than one page silently shows only the first 1000.
+		var all []*explorer.SwampDetail
+		for offset := int64(0); ; offset += 1000 {
+			result := m.explorer.ListSwamps(&explorer.SwampFilter{
+				Sanctuary: m.selectedSanctuary,
+				Realm:     m.selectedRealm,
+				Offset:    offset,
+				Limit:     1000,
+			})
+			all = append(all, result.Swamps...)
+			if len(result.Swamps) == 0 || int64(len(all)) >= result.Total {
+				break
+			}
+		}
+		m.swamps = all
 		m.level = levelSwamps
 		m.cursor = 0
 		m.scrollOff = 0
